@@ -4,7 +4,10 @@ Exhaustive enumeration (engine E1): every layout of small grids over {free, barr
 cell pair x connectivity {4, 8} x snap flags (3x4 in the quick tier: every layout with at most 3 barriers, snapping
 off), and every coordinate system (all four axis orientations, fractional steps, offsets) x every way of naming a cell
 (its own coordinates / a point displaced by +-0.49 cell) on free and single-barrier layouts, own coordinates on every
-2x4 layout.  Each result is read as a chain
+2x4 layout.  The `barriers` argument is an ORDERED list: on layouts over {free, 0, 2, 7} (space paths_2x2_fb3_lists;
+thorough also 2x3 over {free, 0, 2}) every permutation of every 2- and 3-element sublist of (0, 2, 7) is passed - a cell
+is a barrier exactly when its value is in the list, in whatever order the list names the values (a value of the
+alphabet that is not listed is an ordinary crossable cell).  Each result is read as a chain
 by xrmc.oracles.astar and compared with Dijkstra on the same move set."""
 import itertools
 import re
@@ -18,7 +21,9 @@ from ..oracles import astar as O
 
 PROPERTY = "C14"
 LEVEL = "model_checking"
-RULE = ("rank = mixed-radix number (layout, coordinate system, connectivity, start cell, start displacement, goal "
+RULE = ("rank = mixed-radix number (layout, barrier list [one list per space except in the '_lists' spaces: every "
+        "permutation of every sublist of the listed lengths of the alphabet's barrier values], coordinate system, "
+        "connectivity, start cell, start displacement, goal "
         "cell, goal displacement, snap flags); layouts = every assignment of the alphabet letters to the cells of "
         "the shape (simplest first: rank 0 = all free; '_sym' spaces: one representative per orbit of the symmetry "
         "group of the rectangle; 'leN' = every layout with at most N barrier cells, fewest barriers first: 'le1' = all "
@@ -43,6 +48,10 @@ ASSUMPTIONS = [
     "the path spaces pass attrs res=(1.0, 1.0) (the documented cell-size attribute) with unit coordinates: "
     "calc_res computes exactly the same 1.0 for them, it only saves 8 xarray reductions per call; the coords_* "
     "spaces without the '_res' suffix pass no attribute (cell size computed from the coordinates)",
+    "barrier lists: floats without repetition, every order (ascending, descending, every other permutation) of "
+    "every sublist of length 2..3 of the barrier values (0, 2, 7); lists naming a value twice, NaN / inf in the "
+    "list and integer-typed lists are not generated; in the '_lists' spaces a cell is non-crossable exactly when "
+    "its value is in the list passed for that case",
     "surface values other than free/barrier/NaN letters, friction, dask/cupy backends (a_star_search has none) "
     "are not explored; start == goal on a crossable cell is asserted as the one-cell chain {start: 0}",
     "quick tier: 3x4 is explored for the layouts with at most 3 barrier cells (299 of 4096) with snapping off; the "
@@ -62,6 +71,10 @@ ALPHABETS = {
     "fbn": dict(values=(1.0, 0.0, NAN), letters="fbn", barriers=[0.0]),
     "ffbb": dict(values=(1.0, 3.0, 0.0, 2.0), letters="fgbc", barriers=[0.0, 2.0]),   # two free, two barrier values
     "fzn": dict(values=(1.0, 0.0, NAN), letters="fzn", barriers=[]),                  # no barrier value: 0 crossable
+    # ORDERED barrier lists (spaces '*_lists'): `lists` = lengths of the sublists of `barriers` that are enumerated,
+    # each in every order; a letter whose value is not in the list of a case is crossable in that case
+    "fb3": dict(values=(1.0, 0.0, 2.0, 7.0), letters="fbcd", barriers=[0.0, 2.0, 7.0], lists=(2, 3)),
+    "fb2": dict(values=(1.0, 0.0, 2.0), letters="fbc", barriers=[0.0, 2.0], lists=(2,)),
 }
 
 # coordinate systems: (origin, step, descending) for y, then for x
@@ -120,7 +133,7 @@ def sym_layouts(h, w, k):
 
 
 class Layout:
-    __slots__ = ("rank", "data", "cross", "text", "das", "dj", "near", "tag")
+    __slots__ = ("rank", "data", "cross", "text", "das", "dj", "near", "tag", "barriers")
 
 
 class AStarSpace(Space):
@@ -131,6 +144,11 @@ class AStarSpace(Space):
         self.n = self.h * self.w
         al = ALPHABETS[alpha]
         self.values, self.letters, self.barriers = al["values"], al["letters"], list(al["barriers"])
+        # the `barriers` arguments explored: one (as written in ALPHABETS) or, for alphabets with `lists`, every
+        # permutation of every sublist of those lengths (shortest first, itertools.permutations order)
+        self.listed = "lists" in al
+        self.barrier_lists = [list(p) for m in al["lists"] for p in itertools.permutations(al["barriers"], m)] \
+            if self.listed else [list(al["barriers"])]
         self.k = len(self.values)
         self.layout_mode = layouts
         if layouts == "all":
@@ -151,8 +169,8 @@ class AStarSpace(Space):
             nlay = len(self.layout_ranks)
         self.systems, self.disp_name, self.disps = tuple(systems), disps, DISPS[disps]
         self.conns, self.flags, self.res_attr = tuple(conns), tuple(flags), res_attr
-        self.radices = [nlay, len(self.systems), len(self.conns), self.n, len(self.disps), self.n, len(self.disps),
-                        len(self.flags)]
+        self.radices = [nlay, len(self.barrier_lists), len(self.systems), len(self.conns), self.n, len(self.disps),
+                        self.n, len(self.disps), len(self.flags)]
         self.size = 1
         for r in self.radices:
             self.size *= r
@@ -162,7 +180,9 @@ class AStarSpace(Space):
 
     def bounds(self):
         return dict(space=self.name, shape=list(self.shape), alphabet=self.alpha, letters=self.letters,
-                    cell_values=[str(v) for v in self.values], barriers=self.barriers, dtype=self.dtype,
+                    cell_values=[str(v) for v in self.values],
+                    barriers=self.barrier_lists if self.listed else self.barriers,
+                    n_barrier_lists=len(self.barrier_lists), dtype=self.dtype,
                     layouts=self.layout_mode, n_layouts=self.radices[0], systems=list(self.systems),
                     points=self.disp_name, connectivity=list(self.conns),
                     snap_flags=[[int(a), int(b)] for a, b in self.flags], res_attr=self.res_attr, cases=self.size)
@@ -174,7 +194,7 @@ class AStarSpace(Space):
         self.xr, self.fn = xr, a_star_search
         self._sysdata()
         # JIT warm-up (also for the diagnostic call signature)
-        L = self.layout(0)
+        L = self.layout(0, 0)
         self.attempt(L, self.canon_da(L), (0.0, 0.0), (0.0, 0.0), self.conns[0], True, True)
 
     def _sysdata(self):
@@ -200,15 +220,17 @@ class AStarSpace(Space):
     def layout_rank(self, li):
         return li if self.layout_ranks is None else self.layout_ranks[li]
 
-    def layout(self, li):
-        if self._cur is not None and self._cur.tag == li:
+    def layout(self, li, bi=0):
+        """Layout number li read with barrier list number bi (crossability depends on both)."""
+        if self._cur is not None and self._cur.tag == (li, bi):
             return self._cur
         lr = self.layout_rank(li)
         digs = unrank_product(lr, [self.k] * self.n)
         L = Layout()
-        L.tag, L.rank = li, lr
+        L.tag, L.rank = (li, bi), lr
+        L.barriers = self.barrier_lists[bi]
         L.data = np.array([self.values[d] for d in digs], dtype=self.dtype).reshape(self.shape)
-        bar = set(self.barriers)
+        bar = set(L.barriers)
         L.cross = [(self.values[d] == self.values[d]) and (self.values[d] not in bar) for d in digs]
         t = "".join(self.letters[d] for d in digs)
         L.text = "/".join(t[r * self.w:(r + 1) * self.w] for r in range(self.h))
@@ -273,7 +295,7 @@ class AStarSpace(Space):
     def attempt(self, L, da, spt, gpt, conn, fs, fg):
         """-> (reading, result bytes)"""
         try:
-            res = self.fn(da, spt, gpt, barriers=list(self.barriers), connectivity=conn,
+            res = self.fn(da, spt, gpt, barriers=list(L.barriers), connectivity=conn,
                           snap_start=fs, snap_goal=fg)
             v = np.asarray(res.values, dtype=np.float64)
         except Exception as e:  # an exception on an in-domain input is a violation too
@@ -313,8 +335,8 @@ class AStarSpace(Space):
 
     # ---- cases ----------------------------------------------------------------------------------------------
     def decode(self, rank):
-        li, si, ci, sc, sdi, gc, gdi, fi = unrank_product(rank, self.radices)
-        return li, si, self.conns[ci], sc, self.disps[sdi], gc, self.disps[gdi], self.flags[fi]
+        li, bi, si, ci, sc, sdi, gc, gdi, fi = unrank_product(rank, self.radices)
+        return (li, bi), si, self.conns[ci], sc, self.disps[sdi], gc, self.disps[gdi], self.flags[fi]
 
     def points(self, s, sc, sd, gc, gd):
         w = self.w
@@ -328,9 +350,9 @@ class AStarSpace(Space):
     def describe(self, rank):
         self._sysdata()
         li, si, conn, sc, sd, gc, gd, (fs, fg) = self.decode(rank)
-        L, s = self.layout(li), self._sys[si]
+        L, s = self.layout(*li), self._sys[si]
         spt, gpt, _ = self.points(s, sc, sd, gc, gd)
-        return {"surface": L.data, "layout": L.text, "barriers": self.barriers, "y": s["ys"], "x": s["xs"],
+        return {"surface": L.data, "layout": L.text, "barriers": L.barriers, "y": s["ys"], "x": s["xs"],
                 "attrs": s["attrs"], "system": s["name"], "start": list(spt), "goal": list(gpt),
                 "start_cell": list(divmod(sc, self.w)), "start_displacement": list(sd),
                 "goal_cell": list(divmod(gc, self.w)), "goal_displacement": list(gd),
@@ -341,7 +363,7 @@ class AStarSpace(Space):
         zero = (0.0, 0.0)
         for rank in range(lo, hi):
             li, si, conn, sc, sd, gc, gd, (fs, fg) = self.decode(rank)
-            L, s = self.layout(li), self._sys[si]
+            L, s = self.layout(*li), self._sys[si]
             spt, gpt, nominal = self.points(s, sc, sd, gc, gd)
             # the cell each point designates (nearest centre); a near-tie would be skipped (none at 0.49 cell)
             step = min(abs(s["sy"]), abs(s["sx"]))
@@ -378,14 +400,16 @@ class AStarSpace(Space):
                 if len(S) > 1 or len(G) > 1:
                     out.count("snap with equidistant candidates (any accepted)")
             nontrivial = hard or moved or (not canonical and sc != gc)
-            out.case(outcome=bytes64(b"%d|%d|" % (L.rank, si) + raw), nontrivial=nontrivial, calls=1)
+            out.case(outcome=bytes64(b"%d|%d|" % (L.rank, si) + (repr(L.barriers).encode() if self.listed else b"")
+                                     + raw), nontrivial=nontrivial, calls=1)
             out.ok()
 
             if problems:
                 label = self.diagnose(L, canonical, conn, sc, gc, fs, fg, S, G, out)
                 out.count("violations:" + label)
                 key = "%s|%dx%d|%s:%s%s|sys=%s%s|start=(%d,%d)%+.2f%+.2f|goal=(%d,%d)%+.2f%+.2f|conn=%d|snap=%d%d" % (
-                    label, h, w, self.alpha, L.text, "" if self.dtype == "f8" else ":" + self.dtype,
+                    label, h, w, self.alpha, L.text + ("|barriers=%r" % (L.barriers,) if self.listed else ""),
+                    "" if self.dtype == "f8" else ":" + self.dtype,
                     s["name"], "+res" if self.res_attr else "", sc // w, sc % w, sd[0], sd[1],
                     gc // w, gc % w, gd[0], gd[1], conn, fs, fg)
                 exp = {"acceptable_start_cells": [list(divmod(c, w)) for c in S],
@@ -397,7 +421,7 @@ class AStarSpace(Space):
                     if len(raw) == 8 * self.n else raw.decode(errors="replace")
                 out.violation(rank, key, "%s: %s  [a_star_search(surface %s (%s), start=%r, goal=%r, barriers=%r, "
                               "connectivity=%d, snap_start=%s, snap_goal=%s); y=%s x=%s attrs=%r]"
-                              % (label, "; ".join(problems), L.text, self.alpha, spt, gpt, self.barriers, conn, fs, fg,
+                              % (label, "; ".join(problems), L.text, self.alpha, spt, gpt, L.barriers, conn, fs, fg,
                                  s["ys"].tolist(), s["xs"].tolist(), s["attrs"]),
                               case=self.describe(rank), observed=observed, expected=exp)
             elif out.want_sample() and hard and obs[0] == "chain" and obs[4] >= 4:
@@ -419,6 +443,9 @@ def _spaces(tier):
         P("paths_2x3_fbn", (2, 3), "fbn"),
         P("paths_2x2_ffbb", (2, 2), "ffbb"),
         P("paths_2x2_fzn", (2, 2), "fzn"),
+        # ORDER of the barrier list: every layout over {free, 0, 2, 7} x every permutation of every 2- and 3-element
+        # barrier list over (0, 2, 7) [6 + 6 lists]; a value that is not listed is crossable
+        P("paths_2x2_fb3_lists", (2, 2), "fb3", flags=FLAGS2),
         P("paths_2x3_fb_i8", (2, 3), "fb", dtype="i8"),
         # ---- coordinate spaces ------------------------------------------------------------------------------
         P("coords_disp_3x3_free", (3, 3), layouts="free", systems=ALL_SYS, disps="nine", conns=(8,),
@@ -437,6 +464,8 @@ def _spaces(tier):
             P("paths_4x4_fb_sym", (4, 4), layouts="sym", flags=FLAGS_OFF, weight=1.5),
             P("paths_3x3_fbn_sym", (3, 3), "fbn", layouts="sym"),
             P("paths_2x3_ffbb", (2, 3), "ffbb", flags=FLAGS2),
+            P("paths_2x2_fb3_lists_mixedsnap", (2, 2), "fb3", flags=FLAGS4[1:3]),
+            P("paths_2x3_fb2_lists", (2, 3), "fb2", flags=FLAGS2),
             P("coords_disp_4x2_free", (4, 2), layouts="free", systems=ALL_SYS, disps="nine", conns=(8,),
               flags=FLAGS_OFF, res_attr=False, weight=4.0),
             P("coords_own_2x4_fb", (2, 4), systems=NONUNIT, conns=(8,), flags=FLAGS2, res_attr=False, weight=4.0),
